@@ -241,7 +241,20 @@ def r64v(F):
     need(len(cands) == 1, "impl From<&Value> for Val not found (%s)" % cands)
     fn = F.fn(cands[0])
     loops = cfg.natural_loops(fn)
-    need(len(loops) >= 2, "expected the tuple and the list loop in From<&Value> for Val")
+    if len(loops) < 2:
+        # written as iterator pipelines: map + collect keeps every item, the skipping adaptors do not
+        its = {}
+        for b, t in fn.calls():
+            c = callee(t)
+            if "::Iterator::" in c or c.startswith("core::iter::"):
+                its.setdefault(c.split("::")[-1], []).append(b)
+        need("collect" in its and "map" in its, "neither the two loops nor iterator pipelines in From<&Value> for Val")
+        skipping = sorted(set(its) & {"flat_map", "filter_map", "flatten", "filter", "take", "skip", "step_by", "take_while", "skip_while", "map_while"})
+        r.inst("lowering:pipelines:every-item", fn.where(its["collect"][0]), not skipping,
+               "map + collect: every item is kept" if not skipping else
+               "the lowering pipeline uses %s: an item can be skipped while a value is lowered for output" % ", ".join(skipping))
+        r.floor = 1
+        return r
     for k, (h, body) in enumerate(sorted(loops.items())):
         nexts = [b for b in body if fn.term(b)["k"] == "call" and callee(fn.term(b)).endswith("::next")]
         need(nexts, "iterator not found in a loop of From<&Value> for Val")
